@@ -295,7 +295,13 @@ func Relayed6(inner []byte, link, peer, ifid string) []byte {
 
 // Solicit6x builds a SOLICIT with two IA_PDs (hint "" = none).
 func Solicit6x(mac []byte, xid [3]byte, hint1, hint2 string) []byte {
-	m := pkt.Msg6{Type: 1, Xid: xid}
+	return Msg6x(1, mac, xid, hint1, hint2)
+}
+
+// Msg6x is Solicit6x with another message type (the lease plugin treats the IA_PDs of every
+// message type it is handed alike).
+func Msg6x(mtype byte, mac []byte, xid [3]byte, hint1, hint2 string) []byte {
+	m := pkt.Msg6{Type: mtype, Xid: xid}
 	m.Opts = append(m.Opts, pkt.Opt6{Code: 1, Data: append([]byte{0, 3, 0, 1}, mac...)})
 	for i, h := range []string{hint1, hint2} {
 		d := []byte{0, 0, 0, byte(7 + i), 0, 0, 0, 0, 0, 0, 0, 0}
@@ -747,6 +753,10 @@ func Specs(thorough bool) []Spec {
 		{Name: "v4/S6b-reply-dropped-at-send-interface-gone+two-clients", Proto: 4, Blocks: 4, Oob: []int{99999, 1, 1}, Dgrams: [][]byte{Unicast4(Discover4(c, 0x1600, nil)), Discover4(a, 0x1601, []byte{6}), Request4(b, 0x1602, nil)}},
 		// the lease time passes between a client's DISCOVER and its renewal; a second client follows
 		{Name: "v4/S7-lease-time-passes-then-renewal+new-client", Proto: 4, Blocks: 3, ClockAfter: 1, ClockBy: 61 * time.Second, Dgrams: [][]byte{Discover4(a, 0x1601, nil), Request4(a, 0x1602, nil), Discover4(b, 0x1603, nil)}},
+		// message types other than Solicit/Request with two IA_PDs each and crossed hints on a
+		// 2-block pool: whole messages are still handled one at a time
+		{Name: "v6/S1g-two-releases-two-IA_PDs-each-crossed-hints", Proto: 6, Blocks: 2, Dgrams: [][]byte{Msg6x(8, a, x(1), "2001:db8:0:10::/64", "2001:db8:0:11::/64"), Msg6x(8, b, x(2), "2001:db8:0:11::/64", "2001:db8:0:10::/64")}},
+		{Name: "v6/S1h-confirm+solicit-two-IA_PDs-each-crossed-hints", Proto: 6, Blocks: 2, Dgrams: [][]byte{Msg6x(4, a, x(1), "2001:db8:0:10::/64", "2001:db8:0:11::/64"), Msg6x(1, b, x(2), "2001:db8:0:11::/64", "2001:db8:0:10::/64")}},
 		{Name: "v6/S1-same-client-two-solicits", Proto: 6, Blocks: 2, Dgrams: [][]byte{Solicit6(a, x(1), true, false, ""), Solicit6(a, x(2), true, false, "")}},
 		{Name: "v6/S1b-same-client-two-IA_PDs-each", Proto: 6, Blocks: 8, Dgrams: [][]byte{Solicit6x(a, x(1), "2001:db8:0:15::/64", "2001:db8:0:16::/64"), Solicit6x(a, x(2), "2001:db8:0:11::/64", "")}},
 		{Name: "v6/S1c-same-client-two-hintless-IA_PDs+new-hint", Proto: 6, Blocks: 8, Dgrams: [][]byte{Solicit6x(a, x(1), "", ""), Solicit6(a, x(2), true, false, "2001:db8:0:13::/64")}},
